@@ -411,6 +411,10 @@ impl WmoWriter {
 
         header.write(writer)?;
 
+        // Offset of each group's name inside the MOGN chunk written by
+        // `write_group_names` (names back to back, each NUL-terminated)
+        let mut name_offset = 0u32;
+
         for group in groups {
             writer.write_u32_le(group.flags.bits())?;
 
@@ -423,8 +427,8 @@ impl WmoWriter {
             writer.write_f32_le(group.bounding_box.max.z)?;
 
             // Write name offset in MOGN chunk
-            // This is a simplification - in a real implementation, you'd need to calculate actual offsets
-            writer.write_u32_le(0)?; // Placeholder
+            writer.write_u32_le(name_offset)?;
+            name_offset += group.name.len() as u32 + 1;
         }
 
         Ok(())
